@@ -248,8 +248,25 @@ static void iobarrier_round(void){ int fd=open("/dev/null",O_WRONLY); if(fd<0) r
   dispatch_io_close(ch,0); dispatch_release(ch); dispatch_release(t0);
   for(int w=0; w<25000 && !atomic_load(&x->fins); w++) usleep(200);
   if(!viol && atomic_load(&x->fins)!=1) fail("the replaced target queue of an I/O channel was not finalised exactly once within 5 s: finalizer runs",atomic_load(&x->fins),0,0); }
+// the FIRST queue-specific values of a fresh queue installed by several threads at the same moment (the list head is allocated and
+// published by whoever comes first; the others throw theirs away): every value is found afterwards, and every destructor runs exactly
+// once when the queue goes away
+struct spr { dispatch_queue_t q; pthread_barrier_t bar; _Atomic int dtor[4]; };
+static struct spr *spr_cur[64]; static char spr_keys[4];
+static void spr_d0(void *c){ struct spr *x=c; atomic_fetch_add(&x->dtor[0],1); } static void spr_d1(void *c){ struct spr *x=c; atomic_fetch_add(&x->dtor[1],1); }
+static void spr_d2(void *c){ struct spr *x=c; atomic_fetch_add(&x->dtor[2],1); } static void spr_d3(void *c){ struct spr *x=c; atomic_fetch_add(&x->dtor[3],1); }
+struct spa { struct spr *x; int k; };
+static void *spr_thread(void *a){ struct spa *p=a; static dispatch_function_t D[4]={spr_d0,spr_d1,spr_d2,spr_d3}; pthread_barrier_wait(&p->x->bar); dispatch_queue_set_specific(p->x->q,&spr_keys[p->k],p->x,D[p->k]); return 0; }
+static void specific_race_round(void){ for(int rep=0; rep<6 && !viol; rep++){ struct spr *x=calloc(1,sizeof *x); int n=2+(int)(rnd()%3); x->q=dispatch_queue_create("spr",rnd()%2?DISPATCH_QUEUE_CONCURRENT:NULL);
+    pthread_barrier_init(&x->bar,NULL,(unsigned)n); pthread_t t[4]; struct spa pa[4]; for(int k=0;k<n;k++){ pa[k].x=x; pa[k].k=k; pthread_create(&t[k],0,spr_thread,&pa[k]); } for(int k=0;k<n;k++) pthread_join(t[k],0);
+    for(int k=0;k<n;k++) if(dispatch_queue_get_specific(x->q,&spr_keys[k])!=x) fail("a queue-specific value installed on a fresh queue at the same moment as others was lost: key / threads",k,n,0);
+    for(int k=0;k<n;k++) if(atomic_load(&x->dtor[k])) fail("a queue-specific destructor ran while the value was still installed: key",k,0,0);
+    dispatch_release(x->q);
+    for(int w=0; w<25000; w++){ int all=1; for(int k=0;k<n;k++) if(!atomic_load(&x->dtor[k])) all=0; if(all) break; usleep(200); }
+    for(int k=0;k<n && !viol;k++) if(atomic_load(&x->dtor[k])!=1) fail("a queue-specific destructor did not run exactly once after the queue's last release (the value had been installed at the same moment as the queue's first other values): key / runs / threads",k,atomic_load(&x->dtor[k]),n);
+    pthread_barrier_destroy(&x->bar); } }
 static int nrounds, do_trace;
-static void *worker(void *a){ long me=(long)a; for(int r=0;r<nrounds && !viol;r++){ hierarchy(do_trace && me==0); if(r%4==0) source_round(); if(r%5==1) timer_reclock_round(); if(r%4==2) suspend_round(); if(r%3==0) data_round(); if(r%3==1) group_round(); if(r%4==3) iobarrier_round(); if(r%2==0) retarget_round(do_trace && me==0); } return 0; }
+static void *worker(void *a){ long me=(long)a; for(int r=0;r<nrounds && !viol;r++){ hierarchy(do_trace && me==0); if(r%4==0) source_round(); if(r%5==1) timer_reclock_round(); if(r%4==2) suspend_round(); if(r%3==0) data_round(); if(r%3==1) group_round(); if(r%4==3) iobarrier_round(); if(r%2==1) specific_race_round(); if(r%2==0) retarget_round(do_trace && me==0); } return 0; }
 static void on_crash(int sig){ char b[220]; int n=snprintf(b,sizeof b,"ORACLE VIOL seed=%llu the library trapped or crashed (signal %d) during object life cycles (its own over-release / resurrection / corrupt-state check, or a use after free)\n",(unsigned long long)seed,sig); if(n>0) (void)!write(1,b,(size_t)n); _exit(1); }
 int main(int argc,char**argv){ seed=argc>1?strtoull(argv[1],0,0):1; nrounds=argc>2?atoi(argv[2]):60; int nthr=argc>3?atoi(argv[3]):3; do_trace=1;
   if(!getenv("ASAN_OPTIONS")){ signal(SIGILL,on_crash); signal(SIGSEGV,on_crash); signal(SIGABRT,on_crash); signal(SIGBUS,on_crash); }
